@@ -146,6 +146,25 @@ func TrafficWorld(audit bool) *Template {
 		for i, r := range w.Block(rcp(a1, b1, 1, ChainAdmins["chainB"]), req(a1, b1, 2, ChainAdmins["chainA"])) {
 			mustOK(r, fmt.Sprintf("traffic %d", i))
 		}
+		// a governance administrator that was frozen and a candidate whose registration was rejected: both have a
+		// role record but are not available administrators
+		w.Fund("1000000000000000000", KeyFor("c17-frozen"), KeyFor("c17-rejected"))
+		vote := func(r *pb.Receipt, what string, approve bool) {
+			mustOK(r, what)
+			pid := ProposalID(r)
+			for i, vr := range w.VoteThrough(pid, approve, len(w.N.Admins)) {
+				if (approve && i < w.Majority()) || i == 0 {
+					mustOK(vr, fmt.Sprintf("vote %d on %s (%s)", i, pid, what))
+				}
+			}
+		}
+		vote(w.Block(w.BVM(w.N.Admins[0], constant.RoleContractAddr, "RegisterRole", pb.String(KeyFor("c17-frozen").Addr.String()), pb.String("governanceAdmin"), pb.String(""), pb.String("r")))[0], "register c17-frozen", true)
+		vote(w.Block(w.BVM(w.N.Admins[0], constant.RoleContractAddr, "FreezeRole", pb.String(KeyFor("c17-frozen").Addr.String()), pb.String("r")))[0], "freeze c17-frozen", true)
+		vote(w.Block(w.BVM(w.N.Admins[0], constant.RoleContractAddr, "RegisterRole", pb.String(KeyFor("c17-rejected").Addr.String()), pb.String("governanceAdmin"), pb.String(""), pb.String("r")))[0], "register c17-rejected", false)
+		for _, nme := range []string{"c17-frozen", "c17-rejected"} {
+			rr := w.ViewBVM(constant.RoleContractAddr, "GetRoleInfoById", pb.String(KeyFor(nme).Addr.String()))
+			data[nme] = string(rr.Ret)
+		}
 		// an open proposal (service registration, not voted)
 		r := w.Block(w.RegisterServiceTx(ChainAdmins["chainC"], "chainC", "open1", true, ""))[0]
 		mustOK(r, "open proposal")
